@@ -335,15 +335,15 @@ Proof. unfold tile_rest. cbv zeta. rewrite !forallb_app, no_invert_map, no_inver
 
 Theorem tile_inversion t W H s b i0 i1 :
   0 <= W -> 0 <= H ->
-  tile (set_inverted t false) W H s b = Ok i0 ->
-  tile (set_inverted t true) W H s b = Ok i1 ->
+  tile_filled (set_inverted t false) W H s b = Ok i0 ->
+  tile_filled (set_inverted t true) W H s b = Ok i1 ->
   zlen (idata i1) = zlen (idata i0) /\
   forall c r, 0 <= c < 8 * ((W + 7) / 8) -> 0 <= r < H ->
     px ((W + 7) / 8) (idata i1) c r =
     if c <? W then negb (px ((W + 7) / 8) (idata i0) c r) else px ((W + 7) / 8) (idata i0) c r.
 Proof.
   intros HW HH T0 T1.
-  unfold tile in T0, T1.
+  unfold tile_filled in T0, T1.
   change (x_bg (set_inverted t false)) with (x_bg t) in T0. change (x_pix (set_inverted t false)) with (x_pix t) in T0.
   change (x_bg (set_inverted t true)) with (x_bg t) in T1. change (x_pix (set_inverted t true)) with (x_pix t) in T1.
   destruct (opt_color_ok (x_bg t) 0) as [bg Ebg]. destruct (opt_color_ok (x_pix t) 65535) as [pc Epc].
@@ -368,8 +368,8 @@ Qed.
 
 Corollary tile_inversion_ok t W H s b i0 i1 :
   0 <= W -> 0 <= H ->
-  tile (set_inverted t false) W H s b = Ok i0 ->
-  tile (set_inverted t true) W H s b = Ok i1 ->
+  tile_filled (set_inverted t false) W H s b = Ok i0 ->
+  tile_filled (set_inverted t true) W H s b = Ok i1 ->
   inversion_ok W H (idata i0) (idata i1) = true.
 Proof.
   intros HW HH T0 T1. destruct (tile_inversion t W H s b i0 i1 HW HH T0 T1) as [L E].
